@@ -3071,3 +3071,8 @@ def compare(I, op, a, b):            # noqa: F811
             return _old_compare(I, op, a, b)
         return I.fresh_const("opaque_cmp", z3.BoolSort())
     return _old_compare(I, op, a, b)
+
+
+@lib("datetime.timedelta", "datetime.datetime", "datetime.date")
+def _timedelta(I, *a, **k):
+    return Opaque("timedelta")
